@@ -23,6 +23,7 @@ import numpy as np
 import core
 
 LEAN_MODULE = "Optyx.Props.C13"
+EXTRA_MODULES = ["Optyx.Props.PinsC13"]   # transcription anchors (harness/source_pins.py)
 THEOREMS = [
     "Optyx.Props.C13.inv_init",
     "Optyx.Props.C13.inv_step",
@@ -33,6 +34,7 @@ THEOREMS = [
     "Optyx.Props.C13.f12_breaks_solve_eq_fresh",
     "Optyx.Props.C13.half_applied_subject_to_breaks_inv",
     "Optyx.Props.Glue.lpGlue_text",
+    "Optyx.Props.PinsC13.anchors",
 ]
 ASSUMPTIONS = [
     "expressions are abstract in the Lean machine: what a cache holds is a function of the model it was computed from "
